@@ -141,3 +141,16 @@ Theorem C16_v110_periodic_conversion_keeps_the_rate :
   conv_periodic mp ma rpl f = CExp (ma * rpl) (mp * rpl * SECOND) f.
 Proof. exact periodic_conversion_keeps_the_rate. Qed.
 Print Assumptions C16_v110_periodic_conversion_keeps_the_rate.
+
+(* the v1.1.0 store migration of the vesting pools (the state the v1.2.0 upgrade starts from): what every pool still locks is
+   unchanged, although the representation changes from "last modification" counters to initially-locked / sent / withdrawn *)
+Theorem C16_v110_pool_migration_preserves_locked :
+  forall p, let '(l, w, se) := migrate_v1_pool p in l - se - w = v1_currently_locked p /\ w = v1_withdrawn p /\ l = v1_vested p.
+Proof. exact v1_pool_migration_preserves_locked. Qed.
+Print Assumptions C16_v110_pool_migration_preserves_locked.
+
+Theorem C16_v110_pool_migration_bounds :
+  forall p, let '(l, w, se) := migrate_v1_pool p in
+  (0 <= w /\ 0 <= se /\ w + se <= l) <-> (0 <= v1_withdrawn p /\ v1_lmv p - v1_lmw p <= v1_vested p - v1_withdrawn p /\ v1_lmw p <= v1_lmv p).
+Proof. exact v1_pool_migration_bounds. Qed.
+Print Assumptions C16_v110_pool_migration_bounds.
